@@ -611,7 +611,7 @@ fn form_name(f: Form) -> &'static str {
 }
 
 // ---------------------------------------------------------------------------------------------
-pub fn run_one(out: &mut Out, linter: &deno_lint::linter::Linter, rng: &mut Rng, seq: &[(String, String)], feats: &[&'static str], case_no: usize, with_panics: bool) {
+pub fn run_one(out: &mut Out, linter: &deno_lint::linter::Linter, rng: &mut Rng, seq: &[(String, String)], feats: &[&'static str], case_no: usize, with_panics: bool, expect: Option<&[bool]>) {
   let mut forms: Vec<Form> = seq
     .iter()
     .map(|(p, f)| {
@@ -668,6 +668,15 @@ pub fn run_one(out: &mut Out, linter: &deno_lint::linter::Linter, rng: &mut Rng,
       for r in &reported {
         out.count(if *r { "reported=true" } else { "reported=false" });
       }
+      // verdicts known by construction (the generator built the pattern so that it knows what the grammar says)
+      if let Some(exp) = expect {
+        for (i, (e, r)) in exp.iter().zip(reported.iter()).enumerate() {
+          if e != r {
+            out.found("C12", if *e { "grammar-by-construction:invalid-pattern-not-reported" } else { "grammar-by-construction:valid-pattern-reported" }, &src,
+              json!({"meta": meta, "index": i, "pattern": seq[i].0, "flags": seq[i].1, "reported": r, "expected": e}));
+          }
+        }
+      }
       // history oracle (second sentence of C12): the verdict of each expression alone, on a fresh validator, must be
       // the verdict it got inside the sequence
       if seq.len() > 1 {
@@ -720,7 +729,40 @@ pub fn run(args: &Args) {
     let mut crng = rng.fork();
     let mut feats: Vec<&'static str> = vec![];
     let kind = crng.below(20);
-    let seq: Vec<(String, String)> = if kind < 2 {
+    let mut expect: Option<Vec<bool>> = None;
+    let seq: Vec<(String, String)> = if kind == 5 {
+      // decimal escapes against the number of capturing groups: with the u flag `\N` is a back-reference and must not
+      // exceed the number of capturing groups of the whole pattern (wherever they stand); look-arounds, non-capturing
+      // groups and character classes do not count.  Without u it is always accepted (legacy octal / identity escape).
+      feats.push("kind=backref-count");
+      let mut groups = 0usize;
+      let mut parts: Vec<String> = vec![];
+      for _ in 0..crng.range(1, 6) {
+        parts.push(match crng.below(9) {
+          0 | 1 => {
+            groups += 1;
+            "(a)".to_string()
+          }
+          2 => {
+            groups += 1;
+            format!("(?<n{}>b)", groups)
+          }
+          3 => "(?:c)".to_string(),
+          4 => "(?=d)".to_string(),
+          5 => "(?!e)".to_string(),
+          6 => "(?<=f)".to_string(),
+          7 => "(?<!g)".to_string(),
+          _ => "[(h)]".to_string(),
+        });
+      }
+      let n = crng.range(1, groups + 4);
+      let at = crng.below(parts.len() + 1);
+      parts.insert(at, format!("\\{}", n));
+      let p = parts.concat();
+      let u = crng.chance(2, 3);
+      expect = Some(vec![u && n > groups]);
+      vec![(p, if u { "u".to_string() } else { ["", "g"][crng.below(2)].to_string() })]
+    } else if kind < 2 {
       gen_history(&mut crng, &mut feats)
     } else if kind == 4 {
       // the same pattern text under different flags, back to back (caches keyed on the text alone)
@@ -794,7 +836,7 @@ pub fn run(args: &Args) {
     };
     feats.sort();
     feats.dedup();
-    run_one(&mut out, &linter, &mut crng, &seq, &feats, case_no, with_panics);
+    run_one(&mut out, &linter, &mut crng, &seq, &feats, case_no, with_panics, expect.as_deref());
   }
   out.finish();
 }
